@@ -16,6 +16,14 @@ Operations (one `Site` each, `Site.group` says which kind of obligation it is):
   group "separator"  the constant a name is split / partitioned / searched at, the separator its components are joined with, the
                      constants the characters of a name are compared with, prefixes accumulated character by character,
                      constants replaced by the separator
+  group "order"      F-NAME.ORDER: a loop over module names sorted as plain strings (`sorted(xs)` / `xs.sort()`, followed through
+                     locals, fields, helpers, slices, reversed / enumerate: `name_list_order`) that stops (break / return), jumps
+                     (index re-positioned, e.g. by another bisect) or drops remembered names (pop / del / clear / truncation of a
+                     list fed from the loop) on a path where the current name is *not* related to the searched one (a negated
+                     startswith / relation predicate) or where dotted levels are compared. Plain string order only guarantees
+                     that an ancestor precedes its descendants: 'a' < 'a-b' < 'a.b', 'pkg' < 'pkg.a' < 'pkg.b.x'. Not armed for
+                     lists sorted with key=lambda n: n.split(".") (a pre-order of the module tree), full walks, and exits taken
+                     where the relation holds (closest parent found).
   group "extent"     component-wise comparison through zip (stops at the shorter list: an ancestor of the prefix compares equal);
                      respects boundaries, so it is not a C14 matter - C10.R2 consumes it
 
@@ -46,6 +54,13 @@ Accepted (safe) idioms, in all their spellings - locals, helpers (private predic
   * a head slice or a next-character slice kept in a local (also by pairwise tuple assignment) is judged at the comparisons of
     that local; a length kept in a field (`self._end = len(self._root)`, both assigned once, in this order, in one method) is
     that length; class-level tuples of accepted next characters are read as constants;
+  * the characters of a name kept in a list (`chars = list(name)`, `[*name]`): loops over it are loops over the name,
+    `"".join(chars[:i])` is `name[:i]`;
+  * an index that is None (`name[:None]` is the whole name), and a memo `prefix of the name -> boundary index | None` shared
+    between calls (`_memo_candidates` + verification in `_index_values_at`: created empty, only written as `D[name[:v]] = v'`
+    with boundary values, the index variable never grows);
+  * `x[len(p):]` with no test on the two strings at all, where x was reached from graph-neighbourhood calls (successors /
+    predecessors / ...): unsafe - edges relate nodes, not names;
   * names handed to callable objects (`matcher(name)`, `filter(matcher, names)`, the static type of `matcher` being a repo class
     with `__call__`) reach the parameters of `__call__`;
   * split / rsplit / partition / rpartition / count / find at '.', join of components with '.' (or of '.'-decorated components
@@ -82,6 +97,7 @@ NAME_METHODS = {"importer", "importee", "importer_parent_modules", "importee_par
 NAME_FUNCS = {"get_parent_modules", "_get_module_name", "get_node"}
 STR_REL_METHODS = {"startswith", "endswith", "removeprefix", "removesuffix", "find", "index", "rfind", "rindex", "count", "replace", "partition", "rpartition", "lstrip", "rstrip", "strip"}
 SEARCH_METHODS = {"find", "rfind", "index", "rindex"}
+GRAPH_NEIGHBOURS = {"successors", "predecessors", "neighbors", "all_neighbors", "descendants", "ancestors", "edges", "in_edges", "out_edges", "bfs_tree", "dfs_tree", "bfs_edges", "dfs_edges", "direct_successor_nodes", "direct_predecessor_nodes"}
 WRAPPERS = {"sorted", "list", "set", "reversed", "tuple", "frozenset", "iter"}
 
 # user-supplied patterns matched against names *by design* (regexes in rules) are recognised by role: the pattern is, unmodified,
@@ -2170,7 +2186,164 @@ def _range_nonempty(f: FuncInfo, loop: ast.AST) -> bool:
         return False
 
 
-def _index_values_at(f: FuncInfo, var: str, hay: str, at: ast.AST) -> frozenset | None:
+def _dominating_assign(f: FuncInfo, use: ast.AST, name: str) -> ast.Assign | None:
+    """The plain assignment `name = ..` that precedes the statement of `use` in the same statement list (or in the list around an
+    enclosing if / with / try), with no other store to the name in between: the value the name certainly has at `use`."""
+    st = use if isinstance(use, ast.stmt) else stmt_of(use)
+    while st is not None and st is not f.node:
+        owner = parent(st)
+        blk = next((b for fld in ("body", "orelse", "finalbody") for b in [getattr(owner, fld, None)] if isinstance(b, list) and any(x is st for x in b)), None)
+        if blk is None:
+            return None
+        i = next(k for k, x in enumerate(blk) if x is st)
+        for prev in reversed(blk[:i]):
+            if isinstance(prev, ast.Assign) and len(prev.targets) == 1 and isinstance(prev.targets[0], ast.Name) and prev.targets[0].id == name:
+                return prev
+            if any(isinstance(x, ast.Name) and x.id == name and isinstance(x.ctx, (ast.Store, ast.Del)) for x in ast.walk(prev)):
+                return None
+        if not isinstance(owner, (ast.If, ast.With, ast.AsyncWith, ast.Try)):
+            return None  # (a loop may carry another value around, a function boundary ends the search)
+        st = owner
+    return None
+
+
+def _dominating_unchanged(f: FuncInfo, d: ast.Assign, use: ast.AST, var: str) -> bool:
+    """No store to `var` between the assignment `d` and the statement of `use` (which `d` precedes in one statement list)."""
+    st = use if isinstance(use, ast.stmt) else stmt_of(use)
+    chain = [st, *[a for a in ancestors(st)]]
+    owner = parent(d)
+    blk = next((b for fld in ("body", "orelse", "finalbody") for b in [getattr(owner, fld, None)] if isinstance(b, list) and any(x is d for x in b)), None)
+    if blk is None:
+        return False
+    i = next(k for k, x in enumerate(blk) if x is d)
+    for nxt in blk[i + 1 :]:
+        if any(nxt is c for c in chain):
+            # inside the statement that holds the use: only what precedes the use on the way down matters - be strict
+            inner = [x for x in ast.walk(nxt) if isinstance(x, ast.Name) and x.id == var and isinstance(x.ctx, (ast.Store, ast.Del))]
+            return all(getattr(x, "lineno", 0) >= getattr(st, "lineno", 0) for x in inner)
+        if any(isinstance(x, ast.Name) and x.id == var and isinstance(x.ctx, (ast.Store, ast.Del)) for x in ast.walk(nxt)):
+            return False
+    return False
+
+
+def _memo_candidates(repo: Repo | None, f: FuncInfo, hay: str) -> dict[str, str]:
+    """Dict parameters / locals of `f` that may serve as a memo `prefix of a name -> boundary index of it`: the syntactic part of
+    the check - {dict name: index variable stored into it}. Required: the only mutation of the dict in `f` is `D[key] = v`, always
+    the same local `v`; `v` never grows (it starts at `len(hay)` and is afterwards only assigned `hay.rfind(".", 0, v)`, a read
+    of the memo at `hay[:v]`, or None - so what is stored is never longer than the keys, which are cut at earlier values of `v`);
+    the dict object is created empty and handed to nothing but this function (followed through the parameters of up to 3 callers).
+    That keys are dot-bounded prefixes and values boundary indices is verified by the caller with the interpreted environments."""
+    fn = f.node
+    if repo is None or not isinstance(fn, (ast.FunctionDef, ast.AsyncFunctionDef)):
+        return {}
+    out: dict[str, str] = {}
+    stores: dict[str, list[ast.Assign]] = {}
+    for n in own_nodes(fn):
+        if isinstance(n, ast.Assign) and len(n.targets) == 1 and isinstance(n.targets[0], ast.Subscript) and isinstance(n.targets[0].value, ast.Name) and not isinstance(n.targets[0].slice, ast.Slice):
+            stores.setdefault(n.targets[0].value.id, []).append(n)
+
+    def cut_at(e: ast.expr, v: str, depth: int = 0) -> bool:
+        """`e` is hay[:v] (directly or a local whose every assignment is that)."""
+        if isinstance(e, ast.Subscript) and isinstance(e.slice, ast.Slice) and e.slice.lower is None and e.slice.step is None and isinstance(e.slice.upper, ast.Name) and e.slice.upper.id == v and norm(e.value) == hay:
+            return True
+        if isinstance(e, ast.Name) and depth < 2 and e.id not in f.param_names:
+            d_ = _dominating_assign(f, e, e.id)
+            # (the index variable must not change between the cut and the use either)
+            return d_ is not None and cut_at(d_.value, v, depth + 1) and _dominating_unchanged(f, d_, e, v)
+        return False
+
+    def never_grows(e: ast.expr, v: str, D: str, first: bool, depth: int = 0) -> bool:
+        if depth > 3:
+            return False
+        if isinstance(e, ast.Constant) and e.value is None:
+            return True
+        if isinstance(e, ast.Call) and _call_name(e) == "len" and len(e.args) == 1 and norm(e.args[0]) == hay:
+            return first
+        if isinstance(e, ast.Call) and isinstance(e.func, ast.Attribute) and e.func.attr == "rfind" and norm(e.func.value) == hay and len(e.args) == 3 and _const_str(e.args[0]) == "." and isinstance(e.args[1], ast.Constant) and e.args[1].value == 0 and isinstance(e.args[2], ast.Name) and e.args[2].id == v:
+            return True
+        if isinstance(e, ast.IfExp):
+            return never_grows(e.body, v, D, False, depth + 1) and never_grows(e.orelse, v, D, False, depth + 1)
+        if isinstance(e, ast.Subscript) and isinstance(e.value, ast.Name) and e.value.id == D and not isinstance(e.slice, ast.Slice):
+            return cut_at(e.slice, v)
+        if isinstance(e, ast.Name) and e.id != v and e.id not in f.param_names:
+            vals = [a.value for a in own_nodes(fn) if isinstance(a, (ast.Assign, ast.AnnAssign)) and a.value is not None and any(isinstance(t, ast.Name) and t.id == e.id for t in (a.targets if isinstance(a, ast.Assign) else [a.target]))]
+            others = [x for x in own_nodes(fn) if isinstance(x, ast.Name) and x.id == e.id and isinstance(x.ctx, ast.Store)]
+            return bool(vals) and len(vals) == len(others) and all(never_grows(x, v, D, False, depth + 1) for x in vals)
+        return False
+
+    def created_empty_for(g: FuncInfo, param: str, depth: int = 0) -> bool:
+        """Every caller passes a dict it created empty (or received the same way) and uses for nothing else."""
+        if depth > 3:
+            return False
+        sites = _callers_args(repo, g, param)
+        if not sites:
+            return False
+        for h, a in sites:
+            if not isinstance(a, ast.Name) or isinstance(h.node, ast.Lambda):
+                return False
+            loads = [x for x in own_nodes(h.node) if isinstance(x, ast.Name) and x.id == a.id and isinstance(x.ctx, ast.Load)]
+            for x in loads:
+                c = parent(x)
+                if not (isinstance(c, ast.Call) and (x in c.args or any(k.value is x for k in c.keywords))):
+                    return False
+                cs = origins(repo)._callees(h, c)
+                if len(cs) != 1 or cs[0].fq != g.fq:
+                    return False
+            if a.id in h.param_names:
+                if not created_empty_for(h, a.id, depth + 1):
+                    return False
+                continue
+            binds = [b for b in own_nodes(h.node) if isinstance(b, (ast.Assign, ast.AnnAssign)) and b.value is not None and any(isinstance(t, ast.Name) and t.id == a.id for t in (b.targets if isinstance(b, ast.Assign) else [b.target]))]
+            stores_ = [x for x in own_nodes(h.node) if isinstance(x, ast.Name) and x.id == a.id and isinstance(x.ctx, ast.Store)]
+            if len(binds) != 1 or len(stores_) != 1:
+                return False
+            v = binds[0].value
+            if not ((isinstance(v, ast.Dict) and not v.keys) or (isinstance(v, ast.Call) and _call_name(v) == "dict" and not v.args and not v.keywords)):
+                return False
+        return True
+
+    for D, writes in stores.items():
+        vs = {norm(w.value) for w in writes if isinstance(w.value, ast.Name)}
+        if len(vs) != 1 or not all(isinstance(w.value, ast.Name) for w in writes):
+            continue
+        v = writes[0].value.id
+        if v in f.param_names:
+            continue
+        # no other mutation / rebinding of the dict
+        bad = False
+        for x in own_nodes(fn):
+            if isinstance(x, ast.Name) and x.id == D:
+                p_ = parent(x)
+                if isinstance(x.ctx, (ast.Store, ast.Del)):
+                    bad = True
+                elif isinstance(p_, ast.Subscript) and p_.value is x:
+                    if isinstance(p_.ctx, ast.Del):
+                        bad = True
+                elif isinstance(p_, ast.Compare) and x in p_.comparators and all(isinstance(o, (ast.In, ast.NotIn)) for o in p_.ops):
+                    pass
+                else:
+                    bad = True  # handed on, iterated, a method is called on it ...
+        if bad:
+            continue
+        assigns = [a for a in own_nodes(fn) if isinstance(a, (ast.Assign, ast.AnnAssign)) and a.value is not None and any(isinstance(t, ast.Name) and t.id == v for t in (a.targets if isinstance(a, ast.Assign) else [a.target]))]
+        stores_v = [x for x in own_nodes(fn) if isinstance(x, ast.Name) and x.id == v and isinstance(x.ctx, ast.Store)]
+        if not assigns or len(assigns) != len(stores_v):
+            continue
+        assigns.sort(key=lambda a: a.lineno)
+        if assigns[0] not in fn.body:
+            continue  # (the initial value is assigned once, before any loop)
+        if not all(never_grows(a.value, v, D, i == 0) for i, a in enumerate(assigns)):
+            continue
+        if D in f.param_names:
+            if not created_empty_for(f, D):
+                continue
+        else:
+            continue  # (a local memo is empty in every call: nothing to read)
+        out[D] = v
+    return out
+
+
+def _index_values_at(f: FuncInfo, var: str, hay: str, at: ast.AST, repo: Repo | None = None) -> frozenset | None:
     """Which kinds of values the index variable `var` can hold when the statement that contains `at` is reached - a small
     path-sensitive interpretation of the function body. Every local is mapped to a set of kinds: neg (-1: separator not found /
     sentinel), zero (constant 0), sep (position of a '.' of `hay`: find / rfind result that is not -1, index / rindex),
@@ -2186,6 +2359,9 @@ def _index_values_at(f: FuncInfo, var: str, hay: str, at: ast.AST) -> frozenset 
     if target is None:
         return None
     OTHER = frozenset({"other"})
+    MEMO_VALUE = frozenset({"sep", "len", "none"})  # what a verified memo `prefix of the name -> boundary index of it | None` holds
+    memos: dict[str, str] = dict(_memo_candidates(repo, f, hay))  # assumed while interpreting, verified afterwards
+    all_at: dict[int, dict] = {}
     HAS_DOT, YES, NO, BOTH = "<'.' in name>", frozenset({"yes"}), frozenset({"no"}), frozenset({"yes", "no"})
     WHOLE = "<results of whole-name searches>"  # the locals that hold the result of `name.find(".")` / `name.rfind(".")` without bounds
     seen_at: list = [None]
@@ -2209,7 +2385,7 @@ def _index_values_at(f: FuncInfo, var: str, hay: str, at: ast.AST) -> frozenset 
         """Some value of this kind makes `value <op> k` evaluate to `want`."""
         table = {ast.Lt: lambda x: x < k, ast.LtE: lambda x: x <= k, ast.Gt: lambda x: x > k, ast.GtE: lambda x: x >= k, ast.Eq: lambda x: x == k, ast.NotEq: lambda x: x != k}
         fn_ = table.get(op)
-        if fn_ is None or kind == "other":
+        if fn_ is None or kind in ("other", "none"):
             return True
         if kind == "neg":
             return fn_(-1) is want
@@ -2255,6 +2431,10 @@ def _index_values_at(f: FuncInfo, var: str, hay: str, at: ast.AST) -> frozenset 
             return frozenset(k), bind_walrus(v, env)
         if isinstance(v, ast.Call) and isinstance(v.func, ast.Name) and v.func.id == "len" and len(v.args) == 1 and not v.keywords and norm(v.args[0]) == hay:
             return frozenset({"len"}), env
+        if isinstance(v, ast.Constant) and v.value is None:
+            return frozenset({"none"}), env
+        if isinstance(v, ast.Subscript) and isinstance(v.value, ast.Name) and v.value.id in memos and not isinstance(v.slice, ast.Slice):
+            return MEMO_VALUE, bind_walrus(v.slice, env)
         if isinstance(v, ast.Call) and isinstance(v.func, ast.Name) and v.func.id == "max" and len(v.args) == 2 and not v.keywords and any(isinstance(a, ast.Constant) and a.value == 0 and not isinstance(a.value, bool) for a in v.args):
             inner = next(a for a in v.args if not (isinstance(a, ast.Constant) and a.value == 0))
             k, env = value(inner, env)
@@ -2309,6 +2489,12 @@ def _index_values_at(f: FuncInfo, var: str, hay: str, at: ast.AST) -> frozenset 
                     return None
                 env[w] = kept
             return env
+        if isinstance(test, ast.Compare) and len(test.ops) == 1 and isinstance(test.ops[0], (ast.Is, ast.IsNot, ast.Eq, ast.NotEq)):
+            for x, y in ((test.left, test.comparators[0]), (test.comparators[0], test.left)):
+                if isinstance(y, ast.Constant) and y.value is None and isinstance(x, ast.Name) and x.id in env and x.id not in poisoned:
+                    is_none = isinstance(test.ops[0], (ast.Is, ast.Eq)) is want
+                    kept = frozenset(k for k in env[x.id] if (k in ("none", "other")) or not is_none) if is_none else frozenset(k for k in env[x.id] if k != "none")
+                    return {**env, x.id: kept} if kept else None
         if isinstance(test, ast.Compare) and len(test.ops) == 1:
             l, op, r = test.left, type(test.ops[0]), test.comparators[0]
             for x, y, flip in ((l, r, False), (r, l, True)):
@@ -2374,6 +2560,7 @@ def _index_values_at(f: FuncInfo, var: str, hay: str, at: ast.AST) -> frozenset 
         return join_env(e_out, brk_all), e_b, e_c
 
     def stmt(s: ast.stmt, env):
+        all_at[id(s)] = join_env(all_at.get(id(s)), env)
         if s is target and not isinstance(s, (ast.While, ast.For, ast.AsyncFor)):
             seen_at[0] = join_env(seen_at[0], env)
         if isinstance(s, (ast.FunctionDef, ast.AsyncFunctionDef, ast.ClassDef)):
@@ -2461,10 +2648,63 @@ def _index_values_at(f: FuncInfo, var: str, hay: str, at: ast.AST) -> frozenset 
         k, _e = value(v, {})
         return k
 
-    try:
-        block(fn.body, {})
-    except (_GiveUp, RecursionError):
-        return None
+    def kinds_before(st_: ast.AST, v: str) -> frozenset:
+        e_ = all_at.get(id(st_))
+        return get(e_, v) if e_ is not None else OTHER
+
+    def prefix_cut_ok(e: ast.expr, st_: ast.AST, depth: int = 0) -> bool:
+        """`e`, evaluated at statement `st_`, is a prefix of the name that ends at a separator or is the whole name."""
+        if isinstance(e, ast.Subscript) and isinstance(e.slice, ast.Slice) and e.slice.lower is None and e.slice.step is None and isinstance(e.slice.upper, ast.Name) and norm(e.value) == hay:
+            return kinds_before(st_, e.slice.upper.id) <= {"sep", "len"} and bool(kinds_before(st_, e.slice.upper.id))
+        if isinstance(e, ast.Name) and depth < 2 and e.id not in f.param_names:
+            # the variable of a loop over a list that only ever receives such prefixes
+            for a in ancestors(st_):
+                if a is fn:
+                    break
+                if isinstance(a, (ast.For, ast.AsyncFor)) and isinstance(a.target, ast.Name) and a.target.id == e.id and isinstance(a.iter, ast.Name) and not any(st_ is x or any(st_ is y for y in ast.walk(x)) for x in a.orelse):
+                    L = a.iter.id
+                    if L in f.param_names:
+                        return False
+                    appends = []
+                    for x in own_nodes(fn):
+                        if isinstance(x, ast.Name) and x.id == L:
+                            p_ = parent(x)
+                            if isinstance(x.ctx, ast.Store):
+                                asg = parent(x)
+                                if not (isinstance(asg, (ast.Assign, ast.AnnAssign)) and isinstance(asg.value, ast.List) and not asg.value.elts):
+                                    return False
+                            elif isinstance(p_, ast.Attribute) and p_.attr == "append" and isinstance(parent(p_), ast.Call) and len(parent(p_).args) == 1:
+                                appends.append(parent(p_))
+                            elif x is a.iter:
+                                pass
+                            else:
+                                return False
+                    return bool(appends) and all(prefix_cut_ok(c.args[0], stmt_of(c), depth + 1) for c in appends)
+            d_ = _dominating_assign(f, st_, e.id)
+            if d_ is None or not isinstance(d_.value, ast.Subscript) or not isinstance(d_.value.slice, ast.Slice) or not isinstance(d_.value.slice.upper, ast.Name):
+                return False
+            return prefix_cut_ok(d_.value, d_, depth + 1)  # (the prefix was cut where it was assigned)
+        return False
+
+    for _round in range(len(memos) + 1):
+        all_at.clear()
+        seen_at[0] = None
+        try:
+            block(fn.body, {})
+        except (_GiveUp, RecursionError):
+            return None
+        failed = None
+        for D, v in memos.items():
+            for w in [n_ for n_ in own_nodes(fn) if isinstance(n_, ast.Assign) and len(n_.targets) == 1 and isinstance(n_.targets[0], ast.Subscript) and isinstance(n_.targets[0].value, ast.Name) and n_.targets[0].value.id == D]:
+                kv = kinds_before(w, v)
+                if not kv or not kv <= MEMO_VALUE or not prefix_cut_ok(w.targets[0].slice, w):
+                    failed = D
+                    break
+            if failed:
+                break
+        if failed is None:
+            break
+        del memos[failed]  # not a memo of boundary indices: its values are unknown - interpret again without it
     env_at = seen_at[0]
     if env_at is None:
         return None
@@ -2496,7 +2736,7 @@ def _boundary_index_var(repo: Repo, f: FuncInfo, var: str, hay: str, at: ast.AST
         # decided by the reaching values alone
         if not binds or any(kind != "value" for kind, _src, _p in binds):
             return None
-        kinds = _index_values_at(f, var, hay, at)
+        kinds = _index_values_at(f, var, hay, at, repo)
         if not kinds or not (kinds & {"sep", "neg", "len"}):
             return None
         if "neg" not in kinds or (nonneg and "zero" not in kinds):
@@ -2505,7 +2745,7 @@ def _boundary_index_var(repo: Repo, f: FuncInfo, var: str, hay: str, at: ast.AST
     if nonneg or _found_guard(repo, f, at, hay, {var}):
         return "safe"
     # reaching values: on every path to the cut the not-found result was replaced (`if i < 0: i = len(name)`) or excluded
-    kinds = _index_values_at(f, var, hay, at)
+    kinds = _index_values_at(f, var, hay, at, repo)
     if kinds and "neg" not in kinds:
         return "safe"
     return "unsafe"
@@ -2634,11 +2874,22 @@ def _positions_of(repo: Repo, f: FuncInfo, node: ast.AST, var: str, tgt: ast.exp
 
     char_var = None
     positions = False
-    if isinstance(it, ast.Call) and _call_name(it) == "enumerate" and it.args and norm(it.args[0]) == hay and isinstance(tgt, ast.Tuple) and len(tgt.elts) == 2 and isinstance(tgt.elts[0], ast.Name) and tgt.elts[0].id == var:
+    hay_e = _parse_atom(hay)
+    hay_src = _chars_of(repo, f, hay_e) if hay_e is not None else None  # the sliced value is the character list of a name
+    hays = {hay} | ({norm(hay_src)} if hay_src is not None else set())
+
+    def same(x: ast.expr) -> bool:
+        """`x` is the sliced string, or the list of its characters (same positions)."""
+        if norm(x) in hays:
+            return True
+        src = _chars_of(repo, f, x)
+        return src is not None and norm(src) in hays
+
+    if isinstance(it, ast.Call) and _call_name(it) == "enumerate" and it.args and same(it.args[0]) and isinstance(tgt, ast.Tuple) and len(tgt.elts) == 2 and isinstance(tgt.elts[0], ast.Name) and tgt.elts[0].id == var:
         positions = True
         if isinstance(tgt.elts[1], ast.Name):
             char_var = tgt.elts[1].id
-    elif isinstance(it, ast.Call) and _call_name(it) == "range" and any(isinstance(c, ast.Call) and _call_name(c) == "len" and c.args and norm(c.args[0]) == hay for a in it.args for c in ast.walk(a)) and isinstance(tgt, ast.Name):
+    elif isinstance(it, ast.Call) and _call_name(it) == "range" and any(isinstance(c, ast.Call) and _call_name(c) == "len" and c.args and same(c.args[0]) for a in it.args for c in ast.walk(a)) and isinstance(tgt, ast.Name):
         positions = True
     if positions:
         facts = guard_formula(f, node)
@@ -2648,7 +2899,7 @@ def _positions_of(repo: Repo, f: FuncInfo, node: ast.AST, var: str, tgt: ast.exp
             if isinstance(e, ast.Compare) and len(e.ops) == 1 and isinstance(e.ops[0], ast.Eq):
                 pair = [e.left, e.comparators[0]]
                 sides = {norm(x) for x in pair}
-                if any(_char_value(repo, f, x) == "." for x in pair) and (sides & ({char_var} if char_var else set()) or f"{hay}[{var}]" in sides):
+                if any(_char_value(repo, f, x) == "." for x in pair) and (sides & ({char_var} if char_var else set()) or any(isinstance(x, ast.Subscript) and norm(x.slice) == var and same(x.value) for x in pair)):
                     good.append(mk(a))
         try:
             if good and off in (0, 1) and implies(facts, f_or(good)):
@@ -3835,6 +4086,16 @@ def _slice_by_len(repo: Repo, f: FuncInfo, n: ast.AST, other_e: ast.expr, bounda
                     verdicts.append("unknown")
             if verdicts and all(v == "safe" for v in verdicts):
                 return "safe", "every caller establishes, by a relation predicate of the same object, that the argument is the name or one of its ancestors"
+    # no string test at all, and the name was reached along graph edges: `for m in walk_of_successors(p): label(m[len(p):])`
+    if depth == 0:
+        try:
+            edge = next((x for _g, x, kind in origins(repo).value(f, hay_e) if kind == "elem" and isinstance(x, ast.Call) and isinstance(x.func, ast.Attribute) and x.func.attr in GRAPH_NEIGHBOURS), None)
+        except RecursionError:
+            raise
+        except Exception:  # noqa: BLE001
+            edge = None
+        if edge is not None:
+            return "unsafe", f"`{norm(n, 60)}` cuts a module name at the length of another one, and no test on the two strings establishes that the name is that module or lies below it by whole dotted components: `{hay}` is reached along graph edges (`{norm(edge, 50)}`), which relate nodes, not names - wherever an edge joins two names that are not dotted parent and child, the cut takes an unrelated piece of the name"
     return "unknown", f"`{norm(n, 60)}`: no test relating `{hay}` and `{other}` found on the paths to this slice"
 
 
@@ -3970,6 +4231,25 @@ def _char_prefix_sites(repo: Repo, f: FuncInfo, loop: ast.For, char: str, it: as
     return out
 
 
+def _chars_of(repo: Repo, f: FuncInfo, e: ast.expr, depth: int = 0) -> ast.expr | None:
+    """`e` denotes the sequence of the characters of a string, in order: `list(s)`, `tuple(s)`, `[*s]`, `[c for c in s]`, or a
+    single-assignment local bound to one of these - returns `s`."""
+    if depth > 3:
+        return None
+    if isinstance(e, ast.Call) and isinstance(e.func, ast.Name) and e.func.id in ("list", "tuple") and len(e.args) == 1 and not e.keywords and not _is_local(f, e.func.id):
+        inner = _chars_of(repo, f, e.args[0], depth + 1)
+        return inner if inner is not None else e.args[0]
+    if isinstance(e, (ast.List, ast.Tuple)) and len(e.elts) == 1 and isinstance(e.elts[0], ast.Starred):
+        return e.elts[0].value
+    if isinstance(e, (ast.ListComp, ast.GeneratorExp)) and len(e.generators) == 1 and not e.generators[0].ifs and isinstance(e.elt, ast.Name) and isinstance(e.generators[0].target, ast.Name) and e.elt.id == e.generators[0].target.id:
+        return e.generators[0].iter
+    if isinstance(e, ast.Name) and not isinstance(f.node, ast.Lambda):
+        d = local_defs(repo, f).get(e.id)
+        if d is not None and not isinstance(d, ast.Name):
+            return _chars_of(repo, f, d, depth + 1)
+    return None
+
+
 def _pair_joiner_separator(repo: Repo, f: FuncInfo, fn: ast.expr, depth: int = 0) -> str | None:
     """The constant a two-argument combiner puts between its arguments (`"{}.{}".format`, `lambda a, b: f"{a}.{b}"`,
     `lambda a, b: a + "." + b`, `lambda a, b: ".".join((a, b))`, a small function that returns one of these); None if `fn` is
@@ -4054,6 +4334,12 @@ def _scan(repo: Repo) -> list[Site]:
 
     for f in repo.all_functions():
         reviewed = REVIEWED_PATTERN_SITES.get((f.module.name, f.qualname))
+        try:
+            sites.extend(_order_sites(repo, f, tagged))
+        except RecursionError:
+            raise
+        except Exception:  # noqa: BLE001 - the order lint makes no statement about shapes it cannot read
+            pass
         for n in own_nodes(f.node):
             try:
                 # ---- case folding of a name that is then compared: distinct names become one
@@ -4356,6 +4642,23 @@ def _scan(repo: Repo) -> list[Site]:
                 # ---- slicing a name
                 elif isinstance(n, ast.Subscript) and isinstance(n.slice, ast.Slice) and isinstance(n.ctx, ast.Load) and "NAME" in tagged(n.value):
                     s = _is_str(T, f, n.value)
+                    if s is not True and isinstance(n.value, ast.Name):
+                        # a slice of the list of the characters of a name, joined again: "".join(chars[:i]) is name[:i]
+                        src = _chars_of(repo, f, n.value)
+                        p_ = parent(n)
+                        if src is not None and "NAME" in tagged(src) and _is_str(T, f, src) is True and isinstance(p_, ast.Call) and isinstance(p_.func, ast.Attribute) and p_.func.attr == "join" and _const_str(p_.func.value) == "" and len(p_.args) == 1 and p_.args[0] is n:
+                            for b, is_upper in [(n.slice.lower, False), (n.slice.upper, True)]:
+                                if b is None or any(isinstance(c, ast.Call) and _call_name(c) == "len" for c in ast.walk(b)):
+                                    continue
+                                try:
+                                    ast.literal_eval(b)
+                                    continue  # constant bound
+                                except Exception:  # noqa: BLE001
+                                    pass
+                                verdict, why = _index_cut(repo, f, n, b, is_upper)
+                                sites.append(Site(f, n, "slice-by-index", n.value, b, True, verdict, why))
+                                break
+                            continue
                     if s is False:
                         continue
                     bounds = [(n.slice.lower, False), (n.slice.upper, True)]
@@ -4396,6 +4699,10 @@ def _scan(repo: Repo) -> list[Site]:
                         it = it.args[0]
                     else:
                         tgt = n.target
+                    if isinstance(tgt, ast.Name) and _is_str(T, f, it) is not True:
+                        src = _chars_of(repo, f, it)  # `chars = list(name)` ... `for c in chars`
+                        if src is not None:
+                            it = src
                     if not isinstance(tgt, ast.Name) or "NAME" not in tagged(it) or _is_str(T, f, it) is not True:
                         continue
                     if isinstance(n, (ast.For, ast.AsyncFor)):
@@ -4419,6 +4726,234 @@ def _scan(repo: Repo) -> list[Site]:
                 if any("NAME" in tagged(x) for x in probe):
                     sites.append(Site(f, n, "internal", None, None, True, "unknown", f"`{norm(n, 60)}`: the lint failed on this construct ({type(exc).__name__}: {str(exc)[:80]})"))
     return sites
+
+
+# --------------------------------------------------------------------------- F-NAME.ORDER: raw string order is not hierarchy order
+#
+# In a list of module names sorted as plain strings an ancestor precedes its descendants, and the block
+# [bisect(name + "."), bisect(name + "/")) holds exactly the descendants of a name. Nothing else follows from the order: the
+# descendants of a name do not directly follow it, and the ancestors of a name are not its neighbours - 'a' < 'a-b' < 'a.b'
+# (characters below '.': '-', '+', '$', ' ', ...), and even with identifier-only names 'pkg' < 'pkg.a' < 'pkg.b.x'. A scan over such
+# a list that stops, jumps or forgets earlier names as soon as a name is not related (or lies on a shallower level) treats string
+# order as a pre-order of the module tree.
+
+COUNTEREXAMPLE = "in plain string order 'a' < 'a-b' < 'a.b': the sibling 'a-b' stands between the module 'a' and its sub module 'a.b'"
+
+
+def _sort_key_kind(repo: Repo, f: FuncInfo, key: ast.expr | None) -> str:
+    """raw (no key / identity) | components (the list of the dotted components) | other."""
+    if key is None or (isinstance(key, ast.Constant) and key.value is None):
+        return "raw"
+    if isinstance(key, ast.Lambda) and len(key.args.args) == 1 and not key.args.defaults:
+        p, b = key.args.args[0].arg, key.body
+        if isinstance(b, ast.Name) and b.id == p:
+            return "raw"
+        if isinstance(b, ast.Call) and _call_name(b) in ("tuple", "list") and len(b.args) == 1:
+            b = b.args[0]
+        if isinstance(b, ast.Call) and isinstance(b.func, ast.Attribute) and b.func.attr == "split" and isinstance(b.func.value, ast.Name) and b.func.value.id == p and len(b.args) == 1 and _char_value(repo, f, b.args[0]) == ".":
+            return "components"
+        return "other"
+    if isinstance(key, (ast.Name, ast.Attribute)):
+        g = _resolve_callable_text(repo, f, key)
+        if g is not None and not isinstance(g.node, ast.Lambda):
+            ps = [x for x in _positional(g) if x not in ("self", "cls")]
+            rets = Origins._returns(g)
+            if len(ps) == 1 and len(rets) == 1:
+                b = rets[0]
+                if isinstance(b, ast.Call) and _call_name(b) in ("tuple", "list") and len(b.args) == 1:
+                    b = b.args[0]
+                if isinstance(b, ast.Call) and isinstance(b.func, ast.Attribute) and b.func.attr == "split" and isinstance(b.func.value, ast.Name) and b.func.value.id == ps[0] and len(b.args) == 1 and _char_value(repo, g, b.args[0]) == ".":
+                    return "components"
+    return "other"
+
+
+def name_list_order(repo: Repo, f: FuncInfo, e: ast.expr, depth: int = 0) -> str | None:
+    """How the sequence denoted by `e` is ordered: 'raw' (sorted() / .sort() on plain strings), 'components' (sorted by the
+    list of dotted components: a pre-order of the module tree), 'other' (another key), None (not known to be sorted).
+    Wrappers that keep or reverse the order (reversed, list, tuple, iter, enumerate, slices) are looked through; locals, fields,
+    and the return values of repo functions are followed."""
+    if depth > 6:
+        return None
+    if isinstance(e, ast.Subscript) and isinstance(e.slice, ast.Slice):
+        return name_list_order(repo, f, e.value, depth + 1)
+    if isinstance(e, ast.Call):
+        fn = e.func
+        nm = _call_name(e)
+        if isinstance(fn, ast.Name) and nm == "sorted" and e.args and not _is_local(f, "sorted"):
+            return _sort_key_kind(repo, f, next((k.value for k in e.keywords if k.arg == "key"), None))
+        if isinstance(fn, ast.Name) and nm in ("reversed", "list", "tuple", "iter", "enumerate") and e.args and not _is_local(f, nm):
+            return name_list_order(repo, f, e.args[0], depth + 1)
+        if isinstance(f.node, ast.Lambda):
+            return None
+        cs = origins(repo)._callees(f, e)
+        if len(cs) == 1 and not isinstance(cs[0].node, ast.Lambda) and not any(isinstance(x, (ast.Yield, ast.YieldFrom)) for x in own_nodes(cs[0].node)):
+            kinds = {name_list_order(repo, cs[0], r, depth + 1) for r in Origins._returns(cs[0])}
+            return kinds.pop() if len(kinds) == 1 else None
+        return None
+    if isinstance(f.node, ast.Lambda):
+        return None
+    if isinstance(e, ast.Name):
+        if e.id in f.param_names:
+            return None
+        binds = origins(repo)._bindings(f, e.id)
+        vals = [src for kind, src, p_ in binds if kind == "value" and not p_]
+        if not binds or len(vals) != len(binds):
+            return None
+        sorts = [c for c in own_nodes(f.node) if isinstance(c, ast.Call) and isinstance(c.func, ast.Attribute) and c.func.attr == "sort" and isinstance(c.func.value, ast.Name) and c.func.value.id == e.id]
+        if sorts:  # sorted in place (after it was filled)
+            kinds = {_sort_key_kind(repo, f, next((k.value for k in c.keywords if k.arg == "key"), None)) for c in sorts}
+            return kinds.pop() if len(kinds) == 1 else None
+        kinds = {name_list_order(repo, f, v, depth + 1) for v in vals}
+        return kinds.pop() if len(kinds) == 1 else None
+    if isinstance(e, ast.Attribute) and isinstance(e.value, ast.Name) and e.value.id in ("self", "cls") and f.cls is not None:
+        O = origins(repo)
+        asg = O._field_assignments(f, e.attr)
+        if not asg:
+            return None
+        kinds = {name_list_order(repo, g, v, depth + 1) for g, v in asg}
+        classes = [*repo.mro(f.cls), *repo.subclasses(f.cls)]
+        for ci in classes:
+            for m in [*ci.methods.values(), *ci.extra_methods]:
+                for c in own_nodes(m.node):
+                    if isinstance(c, ast.Call) and isinstance(c.func, ast.Attribute) and c.func.attr == "sort" and norm(c.func.value) == norm(e):
+                        kinds = {_sort_key_kind(repo, m, next((k.value for k in c.keywords if k.arg == "key"), None))}
+        return kinds.pop() if len(kinds) == 1 else None
+    return None
+
+
+def _order_sites(repo: Repo, f: FuncInfo, tagged) -> list[Site]:
+    """Scans over module names sorted as plain strings that stop / jump / drop remembered names where a name is not related."""
+    from core.guards import atom as mk, atoms_of, f_not, implies
+
+    from .common import guard_formula
+
+    if isinstance(f.node, ast.Lambda):
+        return []
+    out: list[Site] = []
+    loops: list[tuple[ast.AST, ast.expr, set[str], str | None]] = []  # (loop, sorted sequence, element variables, index variable)
+    for n in own_nodes(f.node):
+        if isinstance(n, (ast.For, ast.AsyncFor)):
+            it, tgt = n.iter, n.target
+            if isinstance(it, ast.Call) and _call_name(it) == "enumerate" and it.args and isinstance(tgt, ast.Tuple) and len(tgt.elts) == 2:
+                it, tgt = it.args[0], tgt.elts[1]
+            if isinstance(tgt, ast.Name) and "NAME" in tagged(it):
+                loops.append((n, it, {tgt.id}, None))
+        if isinstance(n, (ast.For, ast.AsyncFor, ast.While)):
+            # an index walk: `candidate = names[idx]` inside the loop
+            for x in ast.walk(n):
+                if isinstance(x, ast.Assign) and len(x.targets) == 1 and isinstance(x.targets[0], ast.Name) and isinstance(x.value, ast.Subscript) and not isinstance(x.value.slice, ast.Slice) and isinstance(x.value.slice, ast.Name) and "NAME" in tagged(x.value.value):
+                    if any(l[0] is n for l in loops):
+                        continue
+                    loops.append((n, x.value.value, {x.targets[0].id}, x.value.slice.id))
+                    break
+    for loop, seq, elems, idx in loops:
+        try:
+            order = name_list_order(repo, f, seq)
+        except RecursionError:
+            raise
+        except Exception:  # noqa: BLE001
+            order = None
+        if order not in ("raw", "components"):
+            continue
+        inner_loops = [x for st_ in loop.body for x in ast.walk(st_) if isinstance(x, (ast.For, ast.AsyncFor, ast.While))]
+
+        def innermost_is_this(x: ast.AST) -> bool:
+            for a in ancestors(x):
+                if a is loop:
+                    return True
+                if isinstance(a, (ast.For, ast.AsyncFor, ast.While)):
+                    return False
+            return False
+
+        def mentions(e_: ast.AST, names_: set[str]) -> bool:
+            return any(isinstance(y, ast.Name) and y.id in names_ for y in ast.walk(e_))
+
+        level_vars = set(elems)
+        for x in ast.walk(loop):  # locals computed from the element: `level = name.count(".")`, `parts = name.split(".")`
+            if isinstance(x, ast.Assign) and len(x.targets) == 1 and isinstance(x.targets[0], ast.Name) and mentions(x.value, elems):
+                level_vars.add(x.targets[0].id)
+
+        def evidence(x: ast.AST, levels: bool) -> str | None:
+            """The path condition of `x` says that the current name is NOT related to another one (or compares levels)."""
+            try:
+                facts = guard_formula(f, x)
+            except Exception:  # noqa: BLE001
+                return None
+            for a in atoms_of(facts):
+                e_ = _unbool(_parse_atom(a))
+                if e_ is None:
+                    continue
+                try:
+                    ex = _expand_names(repo, f, e_)
+                except Exception:  # noqa: BLE001
+                    ex = e_
+                rel = None
+                for c in (e_, ex):  # (as written, and with single-assignment locals expanded)
+                    if isinstance(c, ast.Call) and isinstance(c.func, ast.Attribute) and c.func.attr == "startswith" and c.args and (mentions(c.func.value, elems) or mentions(c.args[0], elems)):
+                        rel = c
+                if rel is None and isinstance(ex, ast.Call) and not (isinstance(ex.func, ast.Attribute) and ex.func.attr in STR_REL_METHODS) and mentions(ex, elems) and len(ex.args) + len(ex.keywords) >= 1:
+                    texts = [" ".join(ast.unparse(a_).split()) for a_ in ex.args]
+                    for i_, h_ in enumerate(texts):
+                        others_ = {t for j_, t in enumerate(texts) if j_ != i_}
+                        try:
+                            if others_ and _relation_call(repo, f, ex, h_, others_, 0):
+                                rel = ex
+                        except RecursionError:
+                            raise
+                        except Exception:  # noqa: BLE001
+                            pass
+                if rel is not None:
+                    try:
+                        if implies(facts, f_not(mk(a))):
+                            return f"`{norm(e_, 60)}` is false there"
+                    except AnalysisError:
+                        pass
+                if levels and isinstance(ex, ast.Compare) and len(ex.ops) == 1 and isinstance(ex.ops[0], (ast.Lt, ast.LtE, ast.Gt, ast.GtE)) and mentions(e_, level_vars):
+                    if any(isinstance(c, ast.Call) and isinstance(c.func, ast.Attribute) and ((c.func.attr == "count" and c.args and _const_str(c.args[0]) == ".") or (c.func.attr == "split" and c.args and _const_str(c.args[0]) == ".")) for c in ast.walk(ex)):
+                        return f"the dotted levels are compared (`{norm(e_, 60)}`)"
+            return None
+
+        if order == "components":
+            continue  # (a pre-order of the module tree: sub modules follow their module; nothing is claimed about such scans)
+        what = f"the names in `{norm(seq, 40)}` are sorted as plain strings"
+        # -- the scan ends / jumps where a name is not related
+        for x in [y for st_ in loop.body for y in ast.walk(st_)]:
+            kind = None
+            if isinstance(x, ast.Break) and innermost_is_this(x):
+                kind = "stops"
+            elif isinstance(x, ast.Return) and not any(isinstance(a, (ast.FunctionDef, ast.AsyncFunctionDef, ast.Lambda)) and a is not f.node for a in ancestors(x) if a is not f.node and any(b is loop for b in ancestors(a))):
+                kind = "stops"
+            elif idx is not None and isinstance(x, ast.Assign) and len(x.targets) == 1 and isinstance(x.targets[0], ast.Name) and x.targets[0].id == idx:
+                core, off = _strip_offset(x.value)
+                if not (isinstance(core, ast.Name) and core.id == idx and off is not None):
+                    kind = "jumps"
+            if kind is None:
+                continue
+            ev = evidence(x, levels=False)
+            if ev is not None:
+                out.append(Site(f, x, "order-scan", seq, None, True, "unsafe", f"`{norm(stmt_of(x) or x, 60)}`: the scan over the sorted names {kind} where a name is not related to the searched one ({ev}) - {what}, so related names need not be neighbours: {COUNTEREXAMPLE}", "order"))
+        # -- remembered names are dropped where a name is not related / lies on a shallower level (a stack of enclosing modules)
+        stacks = set()
+        for x in [y for st_ in loop.body for y in ast.walk(st_)]:
+            if isinstance(x, ast.Call) and isinstance(x.func, ast.Attribute) and x.func.attr == "append" and isinstance(x.func.value, ast.Name) and len(x.args) == 1 and mentions(x.args[0], elems):
+                stacks.add(x.func.value.id)
+            if isinstance(x, ast.AugAssign) and isinstance(x.op, ast.Add) and isinstance(x.target, ast.Name) and mentions(x.value, elems):
+                stacks.add(x.target.id)
+        for x in [y for st_ in loop.body for y in ast.walk(st_)]:
+            c_name = None
+            if isinstance(x, ast.Call) and isinstance(x.func, ast.Attribute) and x.func.attr in ("pop", "clear") and isinstance(x.func.value, ast.Name):
+                c_name = x.func.value.id
+            elif isinstance(x, ast.Delete) and any(isinstance(t, ast.Subscript) and isinstance(t.value, ast.Name) for t in x.targets):
+                c_name = next(t.value.id for t in x.targets if isinstance(t, ast.Subscript) and isinstance(t.value, ast.Name))
+            elif isinstance(x, ast.Assign) and len(x.targets) == 1 and isinstance(x.targets[0], ast.Name) and isinstance(x.value, ast.Subscript) and isinstance(x.value.slice, ast.Slice) and isinstance(x.value.value, ast.Name) and x.value.value.id == x.targets[0].id:
+                c_name = x.targets[0].id  # stack = stack[:k]
+            if c_name is None or c_name not in stacks:
+                continue
+            level_vars_here = level_vars | {c_name}
+            ev = evidence(x, levels=True)
+            if ev is not None:
+                out.append(Site(f, x, "order-stack", seq, None, True, "unsafe", f"`{norm(stmt_of(x) or x, 60)}`: names remembered from earlier rounds of the loop over the sorted names (`{c_name}`) are dropped where the current name is not below them ({ev}) - this takes the sort order for a pre-order of the module tree, but {what}: {COUNTEREXAMPLE} (sorting with key=lambda n: n.split('.') gives a pre-order)", "order"))
+    return out
 
 
 # --------------------------------------------------------------------------- positive fixture
